@@ -34,7 +34,8 @@ class Transfer:
         self.timeout = rng.choice([5, 10, 50, 100, 500])
         nsteps = 1 if self.size <= 4 else 1 + (self.size + 6) // 7
         self.nsteps = nsteps
-        self.behaviour = rng.choice(["ok"] * 6 + ["abort", "silent", "late", "toggle", "mux", "kind", "early", "oversize"])
+        self.behaviour = rng.choice(["ok"] * 6 + ["abort", "abort", "silent", "late", "toggle", "mux", "kind", "early", "oversize"])
+        self.abort_code = rng.choice([0x06020000, 0x05040000, 0x05040000, 0x06010002, 0x08000000, 0x06070010, 0x05030000, 0x00000001, 0xFFFFFFFF])
         self.k = rng.randrange(nsteps)
         if self.behaviour in ("toggle", "early", "oversize") and self.size <= 4:
             self.behaviour = "ok"
@@ -134,8 +135,10 @@ def run_sequence(res, exe, rng, first, forced=None):
                         final_after = pos >= tr.size
                 expect_code = 0
                 if beh == "abort":
-                    resp = bytes([0x80]) + m3 + (0x06020000).to_bytes(4, "little")
-                    expect_code, final_after = 0x06020000, True
+                    # any abort code a server may send, incl. the server's own protocol timeout 0504 0000h
+                    ac = tr.abort_code
+                    resp = bytes([0x80]) + m3 + ac.to_bytes(4, "little")
+                    expect_code, final_after = ac, True
                 elif beh == "toggle":
                     resp = bytes([resp[0] ^ 0x10]) + resp[1:]
                     expect_code, final_after = "nonzero", True
